@@ -52,6 +52,35 @@ func c12GoType(t *c03Tree, asReq bool) reflect.Type {
 	return reflect.StructOf(fields)
 }
 
+// c12Stretch repeats the elements of every non-empty list k times.
+func c12Stretch(t *c03Tree, v any, asReq bool, k int) any {
+	if !asReq && (t.Rep == "opt" || t.Rep == "rep") {
+		s := seqOf(v)
+		out := []any{}
+		for _, e := range s {
+			out = append(out, c12Stretch(t, e, true, k))
+		}
+		if t.Rep == "rep" && len(out) > 0 {
+			one := out
+			for i := 1; i < k; i++ {
+				for _, e := range one {
+					out = append(out, c12Stretch(t, e, true, 1)) // a copy
+				}
+			}
+		}
+		return out
+	}
+	if t.K == "leaf" {
+		return v
+	}
+	s := seqOf(v)
+	out := make([]any, len(s))
+	for i, f := range t.Fields {
+		out[i] = c12Stretch(f, s[i], false, k)
+	}
+	return out
+}
+
 func c12Main(args []string) error {
 	scs, err := readScenarios[c12Scenario](argValue(args, "--scenarios", "-"))
 	if err != nil {
@@ -68,8 +97,16 @@ func c12Main(args []string) error {
 		srcType, tgtType := c12GoType(sc.Src, true), c12GoType(sc.Tgt, true)
 		srcSchema := parquet.SchemaOf(reflect.New(srcType).Interface())
 		tgtSchema := parquet.SchemaOf(reflect.New(tgtType).Interface())
-		// the row is repeated three times with distinct leaf numbers (several rows, order matters)
-		rows = append(append(append([]any{}, rows...), rows...), rows...)
+		// the row is repeated three times with distinct leaf numbers (several rows, order matters); in the
+		// second and third copy every non-empty list is stretched to two and three elements (the model's
+		// universe has lists of at most one element; the requirement Project is defined for any length)
+		base := rows
+		rows = append([]any{}, base...)
+		for k := 2; k <= 3; k++ {
+			for _, row := range base {
+				rows = append(rows, c12Stretch(sc.Src, row, true, k))
+			}
+		}
 		b := &c03Builder{r: newRng(uint64(sc.ID))}
 		next := 0
 		numbered := make([]any, len(rows))
@@ -191,6 +228,55 @@ func c12Main(args []string) error {
 			defer r2.Close()
 			return projectRows(r2)
 		})
+		// other row sources of CopyRows: an in-memory RowBuffer (its Rows() can write themselves: RowWriterTo)
+		// and a Buffer, copied into a writer and into a Buffer of the target schema
+		for _, kind := range []string{"RowBuffer->Writer", "Buffer->Buffer", "RowBuffer->Buffer"} {
+			run("CopyRows("+kind+")", func() ([]any, error) {
+				var src parquet.Rows
+				if kind[:3] == "Row" {
+					rb := parquet.NewRowBuffer[any](srcSchema)
+					for _, v := range vals {
+						if _, err := rb.WriteRows([]parquet.Row{srcSchema.Deconstruct(nil, v.Interface())}); err != nil {
+							return nil, err
+						}
+					}
+					src = rb.Rows()
+				} else {
+					b := parquet.NewBuffer(srcSchema)
+					for _, v := range vals {
+						if err := b.Write(v.Interface()); err != nil {
+							return nil, err
+						}
+					}
+					src = b.Rows()
+				}
+				defer src.Close()
+				if kind[len(kind)-6:] == "Writer" {
+					out := new(bytes.Buffer)
+					w := parquet.NewWriter(out, tgtSchema)
+					if _, err := parquet.CopyRows(w, src); err != nil {
+						return nil, err
+					}
+					if err := w.Close(); err != nil {
+						return nil, err
+					}
+					f, err := parquet.OpenFile(bytes.NewReader(out.Bytes()), int64(out.Len()))
+					if err != nil {
+						return nil, err
+					}
+					r2 := f.RowGroups()[0].Rows()
+					defer r2.Close()
+					return projectRows(r2)
+				}
+				dst := parquet.NewBuffer(tgtSchema)
+				if _, err := parquet.CopyRows(dst, src); err != nil {
+					return nil, err
+				}
+				r2 := dst.Rows()
+				defer r2.Close()
+				return projectRows(r2)
+			})
+		}
 		run("MergeRowGroups(schema)", func() ([]any, error) {
 			m, err := parquet.MergeRowGroups([]parquet.RowGroup{open().RowGroups()[0]}, tgtSchema)
 			if err != nil {
